@@ -564,6 +564,79 @@ class ReorgDriver(IndexDriver):
         else:
             self.probe('ioerr.server_survived')
 
+    def op_oom_when(self, op):
+        """Out of memory in the middle of a flush: the (skip+1)-th put / delete queued into a write batch by
+        the running server fails with MemoryError (raised out of the middle of the `with` block), and the
+        process is killed `after` durable operations later (1, 2, 3).  The crash oracle applies as for any other
+        death - with one restriction that keeps it to what the crash properties state: what the server's own
+        exception path does with its half-consumed in-memory state is not judged, so the run is left unjudged
+        as soon as a *different* UTXO batch is committed between the failure and the death."""
+        w = self.w
+        sim = w.sim
+        if w.server is None:
+            w.start()
+        skip, after = op.get('skip', 0), op.get('after', 2)
+        state = dict(hits=0, fired=False, since=0, other=False)
+
+        def ahook(tag, detail):
+            if state['fired'] or '/db/meta' not in w.fs.dirs or w.server is None:
+                return False
+            state['hits'] += 1
+            if state['hits'] > skip:
+                state.update(fired=True, batch=detail[1], tag=tag, db=detail[0], dop=sim.dops)
+                return True
+            return False
+
+        def chook(tag, detail):
+            if not state['fired'] or state['other']:
+                return False
+            if tag == 'commit' and detail[0] == 'utxo' and sim.commit_batch is not state['batch']:
+                # the exception path of the server itself writes a further UTXO batch: not a crash property
+                state['other'] = True
+                return False
+            state['since'] += 1
+            if state['since'] >= after:
+                state['ctag'], state['detail'] = tag, detail
+                return True
+            return False
+        sim.alloc_hook, sim.crash_hook = ahook, chook
+        w.fs.tear = op.get('tear')
+        try:
+            r = w.run(lambda: state['fired'] and (state['other'] or w.server is None), op.get('window', 300.0))
+        finally:
+            sim.alloc_hook = sim.crash_hook = None
+        if not state['fired']:
+            self.probe('oom.not_reached')
+            return
+        self.probe('oom.fired')
+        self.probe(f"oom.at.{state['db']}.{state['tag']}")
+        self.mark('oom', state['db'], state['tag'])
+        if r != 'crash' and w.server is not None and not state['other']:
+            w.run(None, 30.0)       # the exception may take a moment to bring the server down
+        if r != 'crash' and (state['other'] or w.server is not None):
+            # the process lived on, or wrote another UTXO batch in its exception path: what that leaves behind
+            # is not a crash property - the rest of the run is not judged
+            self.probe('oom.unjudged')
+            self.abandoned = True
+            return
+        if r != 'crash':
+            # the exception ended the process before the kill: death all the same, everything committed so far
+            # was applied
+            self.probe('oom.server_exited')
+            self.exit_info = None
+            applied = [h for (n, h) in self.utxo_commits]
+            self.crashes.append(dict(dop=sim.dops + 1, tag='exit-on-MemoryError', detail=None,
+                                     applied_height=applied[-1] if applied else -1,
+                                     last_commits=self.utxo_commits[-3:]))
+            return
+        self.probe('oom.crash_fired')
+        failed = sim.dops
+        self.utxo_commits = [(n, h) for (n, h) in self.utxo_commits if n < failed]
+        applied = [h for (n, h) in self.utxo_commits]
+        self.crashes.append(dict(dop=failed, tag=state.get('ctag'), detail=state.get('detail'),
+                                 applied_height=applied[-1] if applied else -1,
+                                 last_commits=self.utxo_commits[-3:]))
+
     def _on_server_end(self, w):
         self.drop_admin_requests()
 
@@ -865,6 +938,14 @@ class CrashFwdFamily(ReorgFamily):
                 plan.append(dict(op='ioerr_when', cond=rng.choice(['flushop', 'flushop', 'anyop']),
                                  skip=rng.choice([0, 1, 2, 3, 4, 5, 6, 7, 8, 10, 13, 17, 25, 40]), window=300.0,
                                  prop='C04'))
+                plan.append(dict(op='start'))
+                continue
+            if rng.random() < 0.12:
+                # out of memory while a write batch is being assembled, killed a few durable operations later
+                plan.append(dict(op='oom_when', skip=rng.choice([0, 1, 2, 3, 5, 8, 13, 21, 34, 55, 89, 144]),
+                                 after=rng.choice([1, 2, 2, 2, 3, 4]), tear=rng.choice([None, 0.0, 0.5, 0.999]),
+                                 window=300.0))
+                plan.append(dict(op='crash_check', prop='C04'))
                 plan.append(dict(op='start'))
                 continue
             plan.append(dict(op='crash_when', cond=rng.choice(['flushop'] * 6 + ['anyop', 'recoveryop']),
